@@ -290,6 +290,7 @@ class Program:
         root: Optional[pathlib.Path] = None,
         overlay: Optional[Dict[str, str]] = None,
         overlay_text: Optional[Dict[str, str]] = None,
+        base: Optional["Program"] = None,
     ):
         self.root = root or repo_root()
         self.modules: Dict[str, Module] = {}
@@ -303,6 +304,10 @@ class Program:
             if parts[-1] == "__init__":
                 parts = parts[:-1]
             name = ".".join(parts)
+            if base is not None and not (overlay_text and rel in overlay_text) and rel not in overlay and name in base.modules:
+                # unchanged module: reuse the parsed, immutable Module object
+                self.modules[name] = base.modules[name]
+                continue
             if overlay_text and rel in overlay_text:
                 source = overlay_text[rel]
             elif rel in overlay:
